@@ -71,11 +71,15 @@ impl Property for C01 {
         ]
     }
 
-    fn run_case(&self, _k: u64, rng: &mut Rng, _env: &Env, mon: &mut Monitor) {
+    fn run_case(&self, k: u64, rng: &mut Rng, env: &Env, mon: &mut Monitor) {
         let regime = if rng.chance(3, 4) { Regime::D } else { Regime::R };
         let np = 1 + rng.usize_below(6);
         let pool = id_pool(rng, np, true);
-        let cfg = FnCfg::new(pool.clone(), regime);
+        let mut cfg = FnCfg::new(pool.clone(), regime);
+        if env.tier == Tier::Thorough && k % 3 == 0 {
+            // the thorough tier also explores larger messages
+            cfg.max_terms = 24;
+        }
         let variant = rng.below(5);
         let f = gen_function_variant(rng, &cfg, variant);
         let vname = variant_name(&f);
